@@ -59,7 +59,12 @@ fn cmd_map(path: &str) -> i32 {
 // -- merge_extents oracle ----------------------------------------------------
 
 fn check_merge(input: &[(u64, u64)]) -> Result<usize, String> {
-    let ext: Vec<Extent> = input.iter().map(|&(s, e)| Extent { start: s, end: e, shared: false }).collect();
+    check_merge_flags(input, 0)
+}
+
+// `flags`: bit i = the shared flag of extent i
+fn check_merge_flags(input: &[(u64, u64)], flags: u64) -> Result<usize, String> {
+    let ext: Vec<Extent> = input.iter().enumerate().map(|(i, &(s, e))| Extent { start: s, end: e, shared: (flags >> i) & 1 == 1 }).collect();
     let out = merge_extents(ext).map_err(|e| format!("error: {}", e))?;
     let o: Vec<(u64, u64)> = out.iter().map(|e| (e.start, e.end)).collect();
     // (1) sorted, disjoint, non-empty
@@ -95,6 +100,31 @@ fn enumerate(u: u64, from: u64, cur: &mut Vec<(u64, u64)>, stats: &mut (u64, u64
     }
 }
 
+fn enumerate_flags(u: u64, from: u64, cur: &mut Vec<(u64, u64)>, stats: &mut (u64, u64, u64), bad: &mut Vec<String>) {
+    for flags in 0..(1u64 << cur.len()) {
+        stats.0 += 1;
+        match check_merge_flags(cur, flags) {
+            Ok(n) => { if n < cur.len() { stats.1 += 1; } }
+            Err(e) => { stats.2 += 1; if bad.len() < 5 { bad.push(format!("{:?} shared-flags={:b}: {}", cur, flags, e)); } }
+        }
+    }
+    for s in from..u {
+        for e in (s + 1)..=u {
+            cur.push((s, e));
+            enumerate_flags(u, e, cur, stats, bad);
+            cur.pop();
+        }
+    }
+}
+
+fn cmd_merge_exhaustive_flags(u: u64) -> i32 {
+    let mut stats = (0u64, 0u64, 0u64);
+    let mut bad = vec![];
+    enumerate_flags(u, 0, &mut vec![], &mut stats, &mut bad);
+    println!("{{\"universe\":{},\"lists\":{},\"lists_with_merges\":{},\"violations\":{},\"examples\":{:?}}}", u, stats.0, stats.1, stats.2, bad);
+    if stats.2 > 0 { 1 } else { 0 }
+}
+
 fn cmd_merge_exhaustive(u: u64) -> i32 {
     let mut stats = (0u64, 0u64, 0u64);
     let mut bad = vec![];
@@ -122,7 +152,7 @@ fn cmd_merge_random(seed: u64, n: u64) -> i32 {
             l.push((st, en));
             pos = en;
         }
-        match check_merge(&l) {
+        match check_merge_flags(&l, xorshift(&mut s)) {
             Ok(m) => { if m < l.len() { merges += 1; } }
             Err(e) => { viol += 1; if bad.len() < 5 { bad.push(format!("{:?}: {}", l, e)); } }
         }
@@ -209,6 +239,7 @@ pub fn main() {
     let rc = match a.get(1).map(|s| s.as_str()) {
         Some("map") => cmd_map(&a[2]),
         Some("merge-exhaustive") => cmd_merge_exhaustive(a[2].parse().unwrap()),
+        Some("merge-exhaustive-flags") => cmd_merge_exhaustive_flags(a[2].parse().unwrap()),
         Some("merge-random") => cmd_merge_random(a[2].parse().unwrap(), a[3].parse().unwrap()),
         Some("copy_file") => cmd_copy_file(&a[2], &a[3]),
         Some("copy_bytes") => cmd_copy_bytes(&a[2], &a[3], a[4].parse().unwrap()),
